@@ -243,6 +243,26 @@ pub fn oracle(c: &Case, st: &mut Stats) -> Verdict {
     }
     // scale_to_servings(n) == scale(n / first declared servings)
     let declared: Option<Vec<u32>> = before.servings().map(|s| s.to_vec());
+    // the base of scale_to_servings is the declared servings whatever a metadata validator says about *other*
+    // entries: parsed after an entry whose standard checks a validator switches off, the servings are the same
+    {
+        let src2 = if m.front.is_some() { src.replacen("---\n", "---\nx-first: 1\n", 1) } else { format!(">> x-first: 1\n{src}") };
+        let opts = cooklang::ParseOptions {
+            recipe_ref_check: None,
+            metadata_validator: Some(Box::new(|k: &serde_yaml::Value, _v: &serde_yaml::Value, o: &mut cooklang::analysis::CheckOptions| {
+                if k.as_str() == Some("x-first") {
+                    o.run_std_checks(false);
+                }
+                cooklang::analysis::CheckResult::Ok
+            })),
+        };
+        if let Ok(r2) = guard(|| parser.parse_with_options(&src2, opts)) {
+            if let Some(o2) = r2.output() {
+                let d2: Option<Vec<u32>> = o2.servings().map(|s| s.to_vec());
+                vensure!(d2 == declared, "c08.servings-base-wrong", "declared servings {declared:?}, but {d2:?} when the recipe is parsed after an entry whose standard checks a validator switched off; source {src2:?}");
+            }
+        }
+    }
     let base = declared.as_ref().and_then(|s| s.first().copied()).unwrap_or(1);
     st.class_if(declared.is_some(), "declares-servings");
     if base > 0 {
